@@ -101,6 +101,20 @@ CLAIMS["C11"] = (
     "formulas for exact arithmetic and are not explored numerically.",
     "DESIGN.md §4 C11")
 
+CLAIMS["C17"] = (
+    "pairing / termination rule over all paths of the exchange search, tiling rule, spec congruence of pointer spacing through an algebraic "
+    "normal form, index-space typing, slice-generator agreement (ast)",
+    "Decides the structural necessary conditions of the four utilities: outcross_shuffle writes the table only through two-element swaps, undoes "
+    "every rejected swap at the same positions, accepts only a strictly smaller duplicate count while updating the incumbent and clearing the "
+    "local-optimum flag, scans all i<j pairs (or only cross-row pairs with the true row length) and stops only after a full pass without acceptance; "
+    "tiled_choice writes consecutive whole tiles [i*n,(i+1)*n) for i<q and draws the remainder r without replacement with (q,r)=divmod; SUS pointers "
+    "start at an offset uniform on [0,total/k) with spacing exactly total/k, the walk and the appended index live in matching index spaces, the result "
+    "is a[sel] reshaped to size; axis_shuffle shuffles exactly the slices of sliceaxisix. The floor/ceil guarantee itself under floating-point pointer "
+    "arithmetic is a runtime quantity and is not decided.",
+    "Trusted: numpy arange/linspace/argsort/cumsum/divmod semantics, Generator.shuffle/choice. Exact output length of numpy.arange with a float step "
+    "is outside this check.",
+    "DESIGN.md §4 C17")
+
 NOT_YET = "rule set not built yet (build in progress; see DESIGN.md §8)"
 NA = {}
 
